@@ -47,6 +47,8 @@ THEOREMS = [
     "SleapVerif.C11.centroid_missing_iff",
     "SleapVerif.C11.ds_missing_iff_label",
     "SleapVerif.C11.len_eq_labelled",
+    "SleapVerif.C11.chunks_written_independent_of_directory",
+    "SleapVerif.C11.chunks_keep_counterexample",
     "SleapVerif.C11.present_multi_channel_nonzero",
     "SleapVerif.C11.present_centroid_channel_nonzero",
     "SleapVerif.C11.padding_rows_missing",
@@ -624,19 +626,101 @@ def poke_sample(s, cfg):
     return None
 
 
+FILLER_SPEC = {"n_nodes": 2, "n_videos": 1, "frames": [
+    {"frame_idx": fi, "video_idx": 0, "insts": [{"kind": "user", "pts": [[8.0 + 9 * a + fi, 70.5 - 11 * a], [17.25 + 9 * a, 61.0 - 11 * a + fi]]}
+                                               for a in range(4)]} for fi in range(4)]}
+
+
+def labels_snapshot(labels):
+    return [[(inst, inst.numpy().copy(), inst.points["xy"].copy(), inst.points["visible"].copy())
+             for inst in lf.instances] for lf in labels]
+
+
+def labels_changed(labels, snap):
+    import numpy as np
+
+    def eq(a, b):
+        return a.shape == b.shape and bool(((a == b) | (np.isnan(a) & np.isnan(b))).all())
+
+    for lf, row in zip(labels, snap):
+        if [id(x) for x in lf.instances] != [id(t[0]) for t in row]:
+            return "the instance list of a frame changed"
+        for inst, arr, xy0, vis0 in row:
+            if not eq(inst.points["xy"], xy0):
+                return f"stored coordinates of a label instance changed: {xy0.tolist()} -> {inst.points['xy'].tolist()}"
+            if not bool((inst.points["visible"] == vis0).all()) or not eq(inst.numpy(), arr):
+                return "visibility / numpy() of a label instance changed"
+    return None
+
+
+def label_reader_checks(labels, spec, rng):
+    """The label-reading helpers of the trainer path (find_instance_crop_size, get_max_instances,
+    get_max_height_width) only READ: stored xy / visible unchanged, a repeated call returns the
+    same value, and the value is what the labels say (independent rationals).  Returns failures."""
+    import math
+    from sleap_nn.data.instance_cropping import find_instance_crop_size
+    from sleap_nn.data.providers import get_max_height_width, get_max_instances
+
+    fails = []
+    snap = labels_snapshot(labels)
+    insts = [i for f in spec["frames"] for i in f["insts"]]
+    for scaling in (0.5, 1.0, 2.0):
+        padding, stride = rng.choice([0, 8]), rng.choice([2, 16])
+        min_crop = rng.choice([None, None, 15, 32])
+        args = dict(padding=padding, maximum_stride=stride, input_scaling=scaling, min_crop_size=min_crop)
+        r1 = call(find_instance_crop_size, labels, **args)
+        why = labels_changed(labels, snap)
+        if why:
+            fails.append(f"find_instance_crop_size(input_scaling={scaling}) altered the labels: {why}")
+            break
+        r2 = call(find_instance_crop_size, labels, **args)
+        if r1 != r2:
+            fails.append(f"find_instance_crop_size(input_scaling={scaling}) returned {r1[1:]} then {r2[1:]} on the same labels")
+        mc = min_crop or 0
+        if mc > 0 and mc % stride == 0:
+            want = mc
+        else:
+            length = Fraction(0)
+            for i in insts:
+                for d in (0, 1):
+                    vs = [Fraction(p[d]) * Fraction(scaling) for p in i["pts"] if p[d] is not None]
+                    length = max(length, (max(vs) - min(vs)) if vs else 0, mc - padding)
+            want = math.ceil((length + padding) / stride) * stride
+        if r1[0] != "ok" or int(r1[1]) != want:
+            fails.append(f"find_instance_crop_size({args}) = {r1[1:]} but the labels give {want}")
+    got = call(get_max_instances, labels)
+    if got != ("ok", max([len(f["insts"]) for f in spec["frames"]] + [-1])):
+        fails.append(f"get_max_instances = {got[1:]}")
+    got = call(get_max_height_width, labels)
+    hw = [VIDEO_HW[v] for v in range(spec["n_videos"])]
+    if got != ("ok", (max(h for h, _ in hw), max(w for _, w in hw))):
+        fails.append(f"get_max_height_width = {got[1:]}")
+    why = labels_changed(labels, snap)
+    if why and not fails:
+        fails.append(f"a label-reading helper altered the labels: {why}")
+    return fails
+
+
 def run_dataset_case(chk, world, case, m_rep, m_asis, tmp):
     """Returns nothing; registers the case, disagreements and failures."""
     import torch
 
     spec, cfg, seq = case["spec"], case["cfg"], case["seq"]
     labels = world.labels(spec)
-    before = [[(inst, inst.numpy().copy(), inst.points["xy"].copy(), inst.points["visible"].copy())
-               for inst in lf.instances] for lf in labels]
+    before = labels_snapshot(labels)
+    pre_fails = []
+    if case.get("pre_helpers"):       # the trainer reads the labels before it builds the dataset from them
+        pre_fails = label_reader_checks(labels, spec, random.Random(ds_line(1, spec, cfg, [])))
+        chk.tag("label_readers_called_before_build")
     chunk_dir = None
     if cfg.get("np_chunks"):          # `.npz` chunk path: scratch directory, removed after the case
         chunk_dir = tempfile.mkdtemp(prefix="chunks_", dir=tmp)
+        if case.get("stale"):         # ... that still holds the chunks an EARLIER dataset (other labels) wrote
+            call(make_dataset, world.labels(FILLER_SPEC),
+                 dict(cfg, anchor=None if cfg["anchor"] is None else min(cfg["anchor"], 1), aug=False), chunk_dir)
+            chk.tag("chunk_dir_holds_an_earlier_datasets_files")
     try:
-        _run_dataset_case(chk, world, case, m_rep, m_asis, labels, before, chunk_dir)
+        _run_dataset_case(chk, world, case, m_rep, m_asis, labels, before, chunk_dir, pre_fails)
     finally:
         if chunk_dir:
             shutil.rmtree(chunk_dir, ignore_errors=True)
@@ -649,7 +733,7 @@ def file_digest(path):
         return hashlib.sha1(fh.read()).hexdigest()
 
 
-def _run_dataset_case(chk, world, case, m_rep, m_asis, labels, before, chunk_dir):
+def _run_dataset_case(chk, world, case, m_rep, m_asis, labels, before, chunk_dir, pre_fails=()):
     import torch
 
     spec, cfg, seq = case["spec"], case["cfg"], case["seq"]
@@ -664,7 +748,7 @@ def _run_dataset_case(chk, world, case, m_rep, m_asis, labels, before, chunk_dir
     ds = r[1]
     rows = expected_rows(spec, cfg) if not ill else [None] * m_rep["len"]
     impl_idx = ([x for p in ds.instance_idx_list for x in p] if cfg["kind"] == "centered" else list(ds.lf_idx_list))
-    first, impl_reads, fails, facts_all = {}, [], [], {"invented_nodes": set()}
+    first, impl_reads, fails, facts_all = {}, [], list(pre_fails), {"invented_nodes": set()}
 
     def snap_entry(e):      # a chunk file (digest) or an in-memory sample dict
         return ("file", e, file_digest(e) if os.path.exists(e) else None) if isinstance(e, (str, os.PathLike)) else ("dict", snapshot(e))
@@ -736,7 +820,8 @@ def _run_dataset_case(chk, world, case, m_rep, m_asis, labels, before, chunk_dir
         if bdir:
             shutil.rmtree(bdir, ignore_errors=True)
     # `use_existing_chunks=True` over this dataset's own chunk directory: same length, same samples
-    if npc and not augm and first and case.get("bystander"):
+    # (not when the directory also holds an earlier dataset's files: `use_existing_chunks` trusts the directory)
+    if npc and not augm and first and case.get("bystander") and not case.get("stale"):
         again = call(make_dataset, world.labels(spec), cfg, chunk_dir, True)
         if again[0] == "raise":
             fails.append(f"use_existing_chunks=True dataset over the fresh chunks raised {again[1]}: {again[2][:100]}")
@@ -830,7 +915,7 @@ def reads_json(reads):
 
 def case_json(case):
     return {"spec": case["spec"], "cfg": case["cfg"], "seq": case["seq"], "bystander": bool(case.get("bystander")),
-            "poke": bool(case.get("poke"))}
+            "poke": bool(case.get("poke")), "pre_helpers": bool(case.get("pre_helpers")), "stale": bool(case.get("stale"))}
 
 
 # ------------------------------------------------------------------ functional API
@@ -1080,6 +1165,12 @@ def probes(chk, world, tmp):
     make_dataset(world.labels(BYSTANDER_SPEC), cfg, d)
     out["shared_chunk_dir_second_dataset_overwrites_first"] = same_sample(a0, a[0]) is not None
     shutil.rmtree(d, ignore_errors=True)
+    # (a') an out-of-range index of a chunked dataset finds a file an earlier dataset left in the directory
+    d = tempfile.mkdtemp(prefix="leftover_", dir=tmp)
+    make_dataset(world.labels(FILLER_SPEC), cfg, d)
+    small = make_dataset(world.labels(spec_a), cfg, d)
+    out["out_of_range_read_returns_an_earlier_datasets_chunk"] = [len(small), call(small.__getitem__, 3)[0]]
+    shutil.rmtree(d, ignore_errors=True)
     # (b) use_existing_chunks=True counts every .npz of the directory
     d = tempfile.mkdtemp(prefix="stray_", dir=tmp)
     make_dataset(world.labels(spec_a), cfg, d)
@@ -1183,7 +1274,9 @@ def main(chk: Check):
                 {"kind": "user", "pts": [[51.25, 46.75], [69.625, 50.8125]]}]}]}
             cfg = {"kind": kind, "user_only": True, "max_hw": [None, None], "scale": 1.0, "anchor": 1,
                    "crop_hw": [32, 32], "max_stride": 16}
-            ds_cases.append({"spec": spec, "cfg": cfg, "seq": [0, 1, 0, 0, 1, 7], "bystander": True})
+            ds_cases.append({"spec": spec, "cfg": cfg, "seq": [0, 1, 0, 0, 1, 7], "bystander": True, "pre_helpers": True})
+            if kind != "single":      # every run: write into a directory that holds another dataset's chunks
+                ds_cases.append({"spec": spec, "cfg": dict(cfg, np_chunks=True), "seq": [0, 0], "stale": True})
         for _ in range(chk.n(900, 8000)):
             spec = gen_labels_spec(rng)
             cfg = gen_cfg(rng, spec)
@@ -1192,7 +1285,9 @@ def main(chk: Check):
             if rng.random() < 0.15:
                 seq.insert(rng.randrange(len(seq) + 1), n + rng.randrange(3))   # KeyError index
             ds_cases.append({"spec": spec, "cfg": cfg, "seq": seq, "bystander": rng.random() < 0.25,
-                             "poke": rng.random() < 0.25})
+                             "poke": rng.random() < 0.25, "pre_helpers": rng.random() < 0.3,
+                             # (valid indices only: an out-of-range read would find the earlier dataset's file)
+                             "stale": rng.random() < 0.5 and all(i < n for i in seq)})
         lines = []
         for c in ds_cases:
             lines += [ds_line(1, c["spec"], c["cfg"], c["seq"]), ds_line(0, c["spec"], c["cfg"], c["seq"])]
@@ -1252,8 +1347,10 @@ if __name__ == "__main__":
                      "a keypoint is missing iff not visible or NaN (Instance.numpy())",
                      "augmentation off for the determinism and value clauses; a 12 % slice of datasets runs with apply_aug=True "
                      "(all intensity and geometric sub-augmentations at p=1): cache unchanged, label NaN => sample NaN, zero channel, labels untouched",
-                     "a chunk directory holds only the chunks of the dataset that wrote it (two chunked datasets sharing a directory "
-                     "overwrite each other; use_existing_chunks=True counts every .npz of the directory) — measured each run in outside_domain_probes",
+                     "use_existing_chunks=True trusts its directory (counts every .npz), and two LIVE chunked datasets must not share a "
+                     "directory (the later one overwrites sample_<i>.npz) — measured each run in outside_domain_probes; a dataset that WRITES "
+                     "its chunks must serve its own samples whatever the directory held before (checked: 50 % of chunked cases start from a "
+                     "directory holding another dataset's files)",
                      "ill-flagged labels (a node flagged visible with NaN stored) are outside the domain: compared with the model (as coded) for the "
                      "frame-based classes only; the centered class then returns a non-finite crop (outside_domain_probes)",
                      "the centered class needs a centroid: every non-empty instance has a labelled x and a labelled y",
